@@ -89,6 +89,8 @@ pub enum Fault {
     Content { path: String, what: ContentFault },
     /// the k-th Fs operation takes `latency` units of simulated time
     Stall { at: usize, latency: u64 },
+    /// EVERY read of `path` fails (a bad sector, a permission problem: faults that do not go away)
+    ReadErrAlways { path: String, kind: IoKind },
 }
 
 impl Fault {
@@ -100,6 +102,7 @@ impl Fault {
             Fault::Appear { .. } => "appear".into(),
             Fault::Content { what, .. } => what.kind().into(),
             Fault::Stall { .. } => "stall".into(),
+            Fault::ReadErrAlways { kind, .. } => format!("read_err_always({})", kind.name()),
         }
     }
     /// true if the fault alters file *contents* (then evaluation fuel is not a verdict)
@@ -228,6 +231,7 @@ impl Fault {
             Fault::Appear { at, path, bytes } => json!({"fault":"appear","at":at,"path":path,"bytes":bytes_to_json(bytes)}),
             Fault::Content { path, what } => json!({"fault":"content","path":path,"what":what.to_json()}),
             Fault::Stall { at, latency } => json!({"fault":"stall","at":at,"latency":latency}),
+            Fault::ReadErrAlways { path, kind } => json!({"fault":"read_err_always","path":path,"kind":kind.name()}),
         }
     }
     pub fn from_json(v: &Value) -> Option<Self> {
@@ -239,6 +243,7 @@ impl Fault {
             "appear" => Fault::Appear { at: at()?, path: v.get("path")?.as_str()?.to_string(), bytes: bytes_from_json(v.get("bytes")?)? },
             "content" => Fault::Content { path: v.get("path")?.as_str()?.to_string(), what: ContentFault::from_json(v.get("what")?)? },
             "stall" => Fault::Stall { at: at()?, latency: v.get("latency")?.as_u64()? },
+            "read_err_always" => Fault::ReadErrAlways { path: v.get("path")?.as_str()?.to_string(), kind: IoKind::parse(v.get("kind")?.as_str()?)? },
             _ => return None,
         })
     }
